@@ -120,10 +120,10 @@ def gen():
 # ------------------------------------------------------------------------------------------
 # feature domain and real-code driver
 # ------------------------------------------------------------------------------------------
-CHANS = ["ryd", "xy", "dig", "both", "ryd+idle", "ryd+det", "ryd+phase"]
+CHANS = ["ryd", "xy", "dig", "both", "ryd+idle", "ryd+det", "ryd+phase", "xy+idle"]
 EFFS = ["none", "eff2", "eff3"]
 COQ_CHAN = {"ryd": "ChRyd", "xy": "ChXY", "dig": "ChDig", "both": "ChBoth", "ryd+idle": "ChRydIdle",
-            "ryd+det": "ChRydDet", "ryd+phase": "ChRydPhase"}
+            "ryd+det": "ChRydDet", "ryd+phase": "ChRydPhase", "xy+idle": "ChXYIdle"}
 COQ_EFF = {"none": "EffNone", "eff2": "Eff2", "eff3": "Eff3"}
 BOOLS = ["leak", "relax", "deph", "hyper", "depol", "prep", "other", "dmrg", "init"]
 _SEQS = {}
@@ -141,6 +141,9 @@ def seq_for(chan):
     if chan == "xy":
         seq.declare_channel("ch", "mw_global")
         seq.add(pulse, "ch")
+    elif chan == "xy+idle":  # only a delay: no basis is "used", the Hamiltonian still is the XY exchange
+        seq.declare_channel("ch", "mw_global")
+        seq.delay(40, "ch")
     elif chan == "ryd":
         seq.declare_channel("ch", "rydberg_global")
         seq.add(pulse, "ch")
@@ -234,8 +237,9 @@ def impl_run(f, want_values=False):
                 kw["initial_state"] = init
             if f["be"] == "sv":
                 return SVConfig(**kw)
-            return MPSConfig(optimize_qubit_ordering=False,
-                             solver=Solver.DMRG if f["dmrg"] else Solver.TDVP, **kw)
+            member = Solver.DMRG if f["dmrg"] else Solver.TDVP
+            as_string = sum(bool(f[k]) for k in BOOLS) % 2 == 1  # both spellings of the solver are exercised
+            return MPSConfig(optimize_qubit_ordering=False, solver=member.value if as_string else member, **kw)
 
         cfg = mk()
         if f["init"]:
@@ -261,11 +265,28 @@ def impl_run(f, want_values=False):
         return out
 
 
+_INTER = {}
+
+
+def pulser_interaction(chan):
+    """pulser's interaction type ('ising' / 'XY') for the sequence."""
+    import warnings
+    from pulser._hamiltonian_data import HamiltonianData
+
+    if chan not in _INTER:
+        with warnings.catch_warnings():
+            warnings.simplefilter("ignore")
+            _INTER[chan] = HamiltonianData.from_sequence(seq_for(chan)).basis_data.interaction_type
+    return _INTER[chan]
+
+
 def supported_py(f) -> bool:
     """The specification table (mirrors Model.Accepts.supported; cross-checked against it)."""
     if f["hyper"] or (f["init"] and f["prep"]):
         return False
     used = pulser_bases(f["chan"])  # ask pulser which bases the Hamiltonian of this sequence involves
+    if pulser_interaction(f["chan"]) == "XY":
+        used = frozenset({"XY"})  # an idle mw_global sequence uses no basis but evolves under the XY exchange
     dim = len(used) + 1 + (1 if f["leak"] else 0)
     shapes = {"eff2": [2], "eff3": [3], "none": [3] if f["leak"] else []}[f["eff"]]
     if f["be"] == "sv":
@@ -290,12 +311,17 @@ def domain(ctx):
                 f = dict(zip(BOOLS, bits), be=be, chan=chan, eff=eff)
                 if be == "sv" and f["dmrg"]:
                     continue
+                if chan == "xy+idle" and f["leak"]:
+                    # pulser-core 1.9.1 bug (third party): HamiltonianData.from_sequence on a mw_global sequence with no
+                    # used basis and with_leakage=True appends 'x' to a shared eigenbasis, after which EVERY XY
+                    # sequence of the process reports 3 levels.  Not run, so that it cannot poison the other cases.
+                    continue
                 n_l = sum(f[k] for k in ("relax", "deph", "hyper", "depol")) + (eff != "none")
                 if not ctx.thorough() and n_l > 1:
                     continue
                 # sequences with a second basis are decided before most features matter: quick keeps the
                 # combinations with at most two features switched on, thorough keeps all
-                if (not ctx.thorough() and chan not in ("ryd", "xy")
+                if (not ctx.thorough() and chan not in ("ryd", "xy", "xy+idle")
                         and sum(f[k] for k in BOOLS) + (eff != "none") > 2):
                     continue
                 out.append(f)
@@ -428,6 +454,8 @@ def run(ctx):
                          "shape assertion, MPS init guard): validated by the exhaustive correspondence only"]
     ctx.assumptions += ["2-atom register, one constant pulse; outcome class is assumed independent of pulse shape "
                         "and register size (>= 2 atoms)",
+                        "mw_global-idle x leakage is not run: it triggers a global-state bug of pulser-core 1.9.1 (all later XY "
+                        "sequences of the process get 3 levels); the Coq table still covers it",
                         "state_prep_error = 1e-9 so that no atom is actually badly prepared (F-13 is C-other)",
                         "emu-sv's rejection of 3-level Lindblad operators is an `assert` (vanishes under python -O)"]
 
@@ -445,7 +473,7 @@ META = {
     "technique": ("Coq decision-table model (SV constructor guards, emu-mps dispatcher and DMRG guard regenerated "
                   "from source; adapter stages hand-written) + whole-domain reflection proof + exhaustive "
                   "correspondence of outcome classes with real Backend.run()"),
-    "text": ("Proved over the whole 2 x 10752 feature domain: accepts b f = true -> supported b f = true, from a closed "
+    "text": ("Proved over the whole 2 x 12288 feature domain: accepts b f = true -> supported b f = true, from a closed "
              "boolean table check evaluated by the Coq VM on the model regenerated from the current source; plus "
              "unconditional theorems that digital/mixed bases, hyperfine dephasing and wrongly-shaped effective "
              "operators are always rejected. Validated only: the model's outcome class equals the real run() outcome "
